@@ -1,5 +1,5 @@
 (* C14 property theorems: statements + `exact lemma` only. *)
-From CJ Require Import Common.Base C14.Model C14.ConcModel C14.Proofs C14.SurjProofs C14.ConcProofs C14.Main C14.Vectors.
+From CJ Require Import Common.Base C14.Model C14.ConcModel C14.Proofs C14.SurjProofs C14.ConcProofs C14.Main C14.Vectors C14.LifeModel C14.LifeProofs.
 From Coq Require Import Permutation.
 
 (* a successful selection is an address of the requested family inside a subnet
@@ -140,3 +140,106 @@ Theorem C14_hmac_hkdf_vectors :
   hkdf_sha256 [1; 2; 3] None [4] 8161 = None.
 Proof. exact (conj (proj1 (proj2 hmac_sha256_vectors)) (conj (proj1 hkdf_sha256_vectors) (proj2 (proj2 hkdf_sha256_vectors)))). Qed.
 Print Assumptions C14_hmac_hkdf_vectors.
+
+(* ---------- the selector as the station and the registrar HOLD it (LifeModel.v) ---------- *)
+
+(* loading a subnet file: the selector built by SubnetsFromTomlFile's AddGeneration loop gives every generation
+   exactly the configuration the file gives it, in whatever order Go's map iteration presents the generations *)
+Theorem C14_load_gives_file :
+  forall f, wellkeyed f -> forall g, lookup (from_file f) g = file_lookup f g.
+Proof. exact from_file_lookup. Qed.
+Print Assumptions C14_load_gives_file.
+
+(* the property over the station's (and the registrar's) lifetime.  After ANY history of reloads -- generations
+   added, changed, retired, loads that fail -- and selections, a selection
+     never panics,
+     returns what a selector loaded FRESHLY from the configuration in force returns (purity across reloads),
+     fails for a generation the configuration in force does not have,
+     and otherwise returns a well-formed address of the requested family inside a subnet that the configuration in
+     force configures for that generation, with that subnet's port-randomisation flag *)
+Theorem C14_lifecycle_in_force :
+  forall f0 pre seed g lv fam post r,
+    wellkeyed f0 -> loads_wellkeyed pre ->
+    nth_error (fst (station_run (from_file f0) (pre ++ ESelect seed g lv fam :: post))) (length pre) = Some (Some r) ->
+    let F := in_force f0 pre in
+    r <> Panic /\
+    r = sel_select (from_file F) seed g lv fam /\
+    (file_lookup F g = None -> exists e, r = Err e) /\
+    (forall p, r = Ok p ->
+       exists cfg grp c, file_lookup F g = Some cfg /\ In grp cfg /\ In c (group_cidrs grp) /\
+                         contains c fam (be_to_N (p_bytes p)) /\ p_rand_port p = rand_port grp /\
+                         blen (p_bytes p) * 8 = bits fam /\ ip_is4 (p_bytes p) = family_eqb fam V4).
+Proof. exact lifecycle_sound. Qed.
+Print Assumptions C14_lifecycle_in_force.
+
+(* every selection of every history is the pure function applied to the configuration in force *)
+Theorem C14_lifecycle_select_is_pure :
+  forall pre f0 seed g lv fam post,
+    wellkeyed f0 -> loads_wellkeyed pre ->
+    nth_error (fst (station_run (from_file f0) (pre ++ ESelect seed g lv fam :: post))) (length pre)
+    = Some (Some (select seed (file_lookup (in_force f0 pre) g) lv fam)).
+Proof. exact station_select_pure0. Qed.
+Print Assumptions C14_lifecycle_select_is_pure.
+
+(* the selector held after any history answers, for EVERY generation (also retired ones and ones never configured),
+   as the file of the last successful load *)
+Theorem C14_lifecycle_held_selector :
+  forall evs f0, wellkeyed f0 -> loads_wellkeyed evs ->
+    forall g, lookup (snd (station_run (from_file f0) evs)) g = file_lookup (in_force f0 evs) g.
+Proof. exact station_held_in_force0. Qed.
+Print Assumptions C14_lifecycle_held_selector.
+
+(* purity across reloads needs no hypothesis on the files at all *)
+Theorem C14_lifecycle_fresh :
+  forall pre f0 seed g lv fam post,
+    nth_error (fst (station_run (from_file f0) (pre ++ ESelect seed g lv fam :: post))) (length pre)
+    = Some (Some (sel_select (from_file (in_force f0 pre)) seed g lv fam)).
+Proof. exact station_select_fresh. Qed.
+Print Assumptions C14_lifecycle_fresh.
+
+(* reloads while selections are in flight (the selector is fetched under the read lock, used afterwards): a
+   selection answers from the configuration that was in force when it fetched the selector, whatever reloads and
+   other selections are scheduled in between *)
+Theorem C14_reload_linearizable :
+  forall f0 t pre seed g lv fam post,
+    nth_error (fst (crun false (cinit f0) (pre ++ CSelect t seed g lv fam :: post))) (length pre)
+    = Some (match force_at_fetch f0 None t pre with
+            | Some F => Some (sel_select (from_file F) seed g lv fam)
+            | None => None
+            end).
+Proof. exact reload_linearizable. Qed.
+Print Assumptions C14_reload_linearizable.
+
+Theorem C14_reload_linearizable_sound :
+  forall f0 t pre seed g lv fam post F r,
+    force_at_fetch f0 None t pre = Some F -> wellkeyed F ->
+    nth_error (fst (crun false (cinit f0) (pre ++ CSelect t seed g lv fam :: post))) (length pre) = Some (Some r) ->
+    r = select seed (file_lookup F g) lv fam /\ r <> Panic /\
+    (file_lookup F g = None -> exists e, r = Err e) /\
+    (forall p, r = Ok p -> exists cfg grp c, file_lookup F g = Some cfg /\ In grp cfg /\ In c (group_cidrs grp) /\
+                                            contains c fam (be_to_N (p_bytes p)) /\ p_rand_port p = rand_port grp).
+Proof. exact reload_linearizable_sound. Qed.
+Print Assumptions C14_reload_linearizable_sound.
+
+(* the selector's exported API.  Any history of UpdateGeneration / RemoveGeneration / Select on one selector: a
+   selection for generation g is the pure function applied to what was LAST written for g (nothing written: what
+   the selector was created with); calls about other generations, and earlier selections, do not matter *)
+Theorem C14_api_history :
+  forall pre s seed g lv fam post, no_add pre ->
+    nth_error (fst (arun s (pre ++ ASelect seed g lv fam :: post))) (length pre)
+    = Some (OSel (select seed (gen_view (lookup s g) g pre) lv fam)).
+Proof. exact api_history_view. Qed.
+Print Assumptions C14_api_history.
+
+(* AddGeneration never overwrites a configured (or removed-but-taken) generation: the index it returns was free,
+   now holds the new configuration, and every other generation reads as before *)
+Theorem C14_api_add_keeps_others :
+  forall s gen v s' u, add_generation s gen v = (s', u) -> max_key s + 1 < uint_mod ->
+    is_taken s u = false /\ lookup s' u = v /\ forall g, g <> u -> lookup s' g = lookup s g.
+Proof. exact add_generation_fresh. Qed.
+Print Assumptions C14_api_add_keeps_others.
+
+Theorem C14_api_removed_generation_fails :
+  forall s g seed lv fam, exists e, sel_select (remove_generation s g) seed g lv fam = Err e.
+Proof. exact api_removed_generation_fails. Qed.
+Print Assumptions C14_api_removed_generation_fails.
